@@ -1,6 +1,11 @@
 /-
-  Structural invariant of the SegmentedQueue machine (property C08, part A), proved for every interleaving, any
-  number of threads, any quasi factor and any permutation input.
+  The inductive invariant of the SegmentedQueue machine (property C08): definitions.
+
+  `Inv s = Glob s ∧ ∀ t, Loc s t (s.pc t)`:
+  * `Glob`  facts about shared memory and the ghost history (no program counter);
+  * `Loc`   what a thread at program counter `p` knows;
+  * `Frame` what a step of ANOTHER thread may change; `Loc` is stable under `Frame` (`loc_frame`), so that a step
+            of thread `t` only has to re-establish `Glob`, `Frame` for the observers and `Loc` for `t` itself.
 -/
 import CdsVerif.Algo.Segmented.Model
 namespace CdsVerif.Algo.Segmented
@@ -99,55 +104,327 @@ def PC.ctNew : PC → Option Nat
   | .ctUnlock _ _ n => some n
   | _ => none
 
-/-! ### The structural invariant -/
+/-- The item of an enqueue that has not yet stored it. -/
+def PC.enqItem : PC → Option Nat
+  | .enqLd1 x _ => some x
+  | .enqLd2 x _ _ => some x
+  | .enqRd x _ _ _ _ => some x
+  | .enqCas x _ _ _ _ => some x
+  | .ctTry x _ _ => some x
+  | .ctSpin x _ _ => some x
+  | .ctIn x _ _ => some x
+  | .ctTail x _ _ => some x
+  | .ctUnlock x _ _ => some x
+  | _ => none
 
-structure InvS (s : St) : Prop where
+/-- The dequeue is going to answer EMPTY. -/
+def PC.emptyRes : PC → Bool
+  | .rhHead _ => true
+  | .rhUnlock _ none => true
+  | .deqDone none => true
+  | _ => false
+
+/-- Inside a critical section, at a point where `m_pHead` / `m_pTail` are exact (just after the acquisition, just
+    before the release). -/
+def PC.quietCS : PC → Bool
+  | .ctIn .. => true
+  | .ctUnlock .. => true
+  | .rhIn .. => true
+  | .rhUnlock .. => true
+  | _ => false
+
+/-! ### The invariant -/
+
+/-- `m_pHead` is the first and `m_pTail` the last segment of the list (both null when the list is empty). -/
+def Quiet (s : St) : Prop :=
+  (s.lo < s.nseg → s.head = some s.lo ∧ s.tail = some (s.nseg - 1)) ∧ (s.lo = s.nseg → s.head = none)
+
+
+structure Glob (s : St) : Prop where
   lo_le : s.lo ≤ s.nseg
   head_some : ∀ h, s.head = some h → h ≤ s.lo ∧ h < s.nseg
   head_none : s.head = none → s.lo = s.nseg
   tail_some : ∀ p, s.tail = some p → p + 1 = s.nseg
+  tail_none : s.lo = s.nseg → s.tail = none
   fresh : ∀ g i, s.nseg ≤ g → s.cell g i = .null
   wide : ∀ g i, s.K ≤ i → s.cell g i = .null
   dead : ∀ g i, g < s.lo → i < s.K → (s.cell g i).isDel = true
   full : ∀ g i, g + 1 < s.nseg → i < s.K → s.cell g i ≠ .null
   holder_lock : ∀ t, s.holder = some t → s.lock = true
-  cs : ∀ t, (s.pc t).inCS = true → s.holder = some t
-  ptr : ∀ t g, (s.pc t).ptr = some g → g < s.nseg
-  dptr : ∀ t g, (s.pc t).dptr = some g → g ≤ s.lo
-  ctArg : ∀ t g j, (s.pc t).ctArg = some g → j < s.K → s.cell g j ≠ .null
-  rhArg : ∀ t g j, (s.pc t).rhArg = some g → j < s.K → (s.cell g j).isDel = true
-  ctNew : ∀ t n, (s.pc t).ctNew = some n → n + 1 = s.nseg
-  rhHead : ∀ t ps, s.pc t = .rhHead ps → s.lo = s.nseg
-  eRd : ∀ t x ps g i rest, s.pc t = .enqRd x ps g i rest →
+  -- conservation
+  item_pos : ∀ g i x, s.cell g i = .item x → s.enqCnt x = 1 ∧ s.posS x = g ∧ s.posI x = i ∧ s.deqCnt x = 0
+  del_pos : ∀ g i x, s.cell g i = .del x → s.enqCnt x = 1 ∧ s.posS x = g ∧ s.posI x = i ∧ s.deqCnt x = 1
+  enq_le : ∀ x, s.enqCnt x = 0 ∨ s.enqCnt x = 1
+  enq_cell : ∀ x, s.enqCnt x = 1 → s.cell (s.posS x) (s.posI x) = .item x ∨ s.cell (s.posS x) (s.posI x) = .del x
+  enq_zero : ∀ x, s.enqCnt x = 0 → s.deqCnt x = 0
+  enq_used : ∀ x, s.enqCnt x = 1 → s.used x = true
+  -- history
+  used_t : ∀ x, s.used x = true → s.tInv x < s.now ∧ s.floorN x ≤ s.nseg
+  cas_t : ∀ x c, s.tCas x = some c → s.tInv x < c ∧ c < s.now ∧ s.enqCnt x = 1
+  cas_some : ∀ x, s.enqCnt x = 1 → s.tCas x ≠ none
+  mark_t : ∀ x m, s.tMark x = some m → m < s.now ∧ s.deqCnt x = 1
+  mark_cas : ∀ x m c, s.tMark x = some m → s.tCas x = some c → c < m
+  mark_some : ∀ x, s.deqCnt x = 1 → s.tMark x ≠ none
+  floor : ∀ x y c, s.used x = true → s.tCas y = some c → c < s.tInv x → s.posS y + 1 ≤ s.floorN x
+  order : ∀ x y c, s.enqCnt x = 1 → s.tCas y = some c → c < s.tInv x → s.posS y ≤ s.posS x
+  quasi : ∀ x y m c, s.tMark x = some m → s.tCas y = some c → c < s.tInv x →
+    (∀ m', s.tMark y = some m' → m < m') → s.posS y = s.posS x
+  -- nobody inside create_tail / remove_head: the published pointers are exact
+  quiet : s.holder = none → Quiet s
+
+structure Loc (s : St) (t : Tid) (p : PC) : Prop where
+  act : p ≠ .idle → s.tCall t < s.now
+  cs : p.inCS = true → s.holder = some t
+  ptr : ∀ g, p.ptr = some g → g < s.nseg
+  dptr : ∀ g, p.dptr = some g → g ≤ s.lo
+  ctArg : ∀ g j, p.ctArg = some g → j < s.K → s.cell g j ≠ .null
+  rhArg : ∀ g j, p.rhArg = some g → j < s.K → (s.cell g j).isDel = true
+  ctNew : ∀ n, p.ctNew = some n → n + 1 = s.nseg
+  ctTail : ∀ x ps n, p = .ctTail x ps n → s.lo = n
+  rhHead : ∀ ps, p = .rhHead ps → s.lo = s.nseg
+  eRd : ∀ x ps g i rest, p = .enqRd x ps g i rest →
     i < s.K ∧ (∀ j, j ∈ rest → j < s.K) ∧ ∀ j, j < s.K → j = i ∨ j ∈ rest ∨ s.cell g j ≠ .null
-  eCas : ∀ t x ps g i rest, s.pc t = .enqCas x ps g i rest →
+  eCas : ∀ x ps g i rest, p = .enqCas x ps g i rest →
     i < s.K ∧ (∀ j, j ∈ rest → j < s.K) ∧ ∀ j, j < s.K → j = i ∨ j ∈ rest ∨ s.cell g j ≠ .null
-  dRd : ∀ t ps g i rest hn, s.pc t = .deqRd ps g i rest hn →
+  dRd : ∀ ps g i rest hn, p = .deqRd ps g i rest hn →
     i < s.K ∧ (∀ j, j ∈ rest → j < s.K) ∧ ∀ j, j < s.K → j = i ∨ j ∈ rest ∨ (s.cell g j).isDel = true ∨ hn = true
-  dCas : ∀ t ps g i x rest hn, s.pc t = .deqCas ps g i x rest hn →
+  dCas : ∀ ps g i x rest hn, p = .deqCas ps g i x rest hn →
     i < s.K ∧ (∀ j, j ∈ rest → j < s.K) ∧ (s.cell g i = .item x ∨ s.cell g i = .del x) ∧
     ∀ j, j < s.K → j = i ∨ j ∈ rest ∨ (s.cell g j).isDel = true ∨ hn = true
+  item : ∀ x, p.enqItem = some x → s.used x = true ∧ s.owner x = t ∧ s.enqCnt x = 0
+  floor : ∀ x g, p.enqItem = some x → p.ptr = some g → s.floorN x ≤ g + 1
+  enqDone : ∀ x, p = .enqDone x → s.enqCnt x = 1
+  deqDone : ∀ x, p = .deqDone (some x) → s.deqCnt x = 1
+  e1Rd : ∀ ps g i rest hn, p = .deqRd ps g i rest hn → ∀ y c, s.tCas y = some c → c < s.tCall t → s.posS y = g →
+    s.posI y = i ∨ s.posI y ∈ rest ∨ (s.cell g (s.posI y)).isDel = true
+  e1Cas : ∀ ps g i x rest hn, p = .deqCas ps g i x rest hn → ∀ y c, s.tCas y = some c → c < s.tCall t → s.posS y = g →
+    s.posI y = i ∨ s.posI y ∈ rest ∨ (s.cell g (s.posI y)).isDel = true
+  e2Rd : ∀ ps g i rest, p = .deqRd ps g i rest true → ∀ y c, s.tCas y = some c → c < s.tCall t → s.posS y ≤ g
+  e2Cas : ∀ ps g i x rest, p = .deqCas ps g i x rest true → ∀ y c, s.tCas y = some c → c < s.tCall t → s.posS y ≤ g
+  e3 : p.emptyRes = true → ∀ y c, s.tCas y = some c → c < s.tCall t → (s.cell (s.posS y) (s.posI y)).isDel = true
+  casIn : ∀ x, p = .enqDone x → ∃ c, s.tCas x = some c ∧ s.tCall t < c
+  markIn : ∀ x, p = .deqDone (some x) → ∃ m, s.tMark x = some m ∧ s.tCall t < m
+  qcs : p.quietCS = true → Quiet s
+  ctTailQ : ∀ x ps n, p = .ctTail x ps n → s.head = some n
 
-theorem invS_init (K : Nat) : InvS (init K) := by
-  constructor <;> intros <;> simp_all [init, PC.inCS, PC.ptr, PC.dptr, PC.ctArg, PC.rhArg, PC.ctNew]
+def Inv (s : St) : Prop := Glob s ∧ ∀ t, Loc s t (s.pc t)
 
-theorem invS_invoke (s s' : St) (t : Tid) (op : GOp) (h : InvS s) (hi : invoke s t op = some s') : InvS s' := by
-  obtain ⟨h1, h2, h3, h4, h5, h6, h7, h8, h9, h10, h11, h12, h13, h14, h15, h16, h17, h18, h19, h20⟩ := h
-  unfold invoke at hi
-  split at hi
-  · split at hi
-    · simp only [Option.some.injEq] at hi; subst hi
-      constructor <;> intros <;> grind [upd, PC.inCS, PC.ptr, PC.dptr, PC.ctArg, PC.rhArg, PC.ctNew]
-    · simp at hi
-  · simp only [Option.some.injEq] at hi; subst hi
-    constructor <;> intros <;> grind [upd, PC.inCS, PC.ptr, PC.dptr, PC.ctArg, PC.rhArg, PC.ctNew]
-  · simp at hi
+/-- What a step of another thread may do to the state, as seen by thread `t` at program counter `p`. -/
+structure Frame (s s' : St) (t : Tid) (p : PC) : Prop where
+  K : s'.K = s.K
+  lo : s.lo ≤ s'.lo
+  nseg : s.nseg ≤ s'.nseg
+  nn : ∀ g i, s.cell g i ≠ .null → s'.cell g i ≠ .null
+  item : ∀ g i x, s.cell g i = .item x → s'.cell g i = .item x ∨ s'.cell g i = .del x
+  del : ∀ g i x, s.cell g i = .del x → s'.cell g i = .del x
+  isdel : ∀ g i, (s.cell g i).isDel = true → (s'.cell g i).isDel = true
+  hold : s.holder = some t → s'.holder = some t ∧ s'.lo = s.lo ∧ s'.nseg = s.nseg ∧ s'.head = s.head ∧ s'.tail = s.tail
+  call : s'.tCall t = s.tCall t
+  now : s.now ≤ s'.now
+  cas : ∀ y c, s'.tCas y = some c → s.tCas y = some c ∨ s.now ≤ c
+  pos : ∀ y c, s.tCas y = some c → s'.posS y = s.posS y ∧ s'.posI y = s.posI y
+  used : ∀ x, s.used x = true → s'.used x = true ∧ s'.owner x = s.owner x ∧ s'.floorN x = s.floorN x
+  mine : ∀ x, p.enqItem = some x → s'.enqCnt x = s.enqCnt x
+  enq1 : ∀ x, s.enqCnt x = 1 → s'.enqCnt x = 1
+  deq1 : ∀ x, s.deqCnt x = 1 → s'.deqCnt x = 1
+  casS : ∀ x c, s.tCas x = some c → s'.tCas x = some c
+  markS : ∀ x m, s.tMark x = some m → s'.tMark x = some m
 
-theorem invS_result (s s' : St) (t : Tid) (r : GRet) (h : InvS s) (hr : result s t = some (s', r)) : InvS s' := by
-  obtain ⟨h1, h2, h3, h4, h5, h6, h7, h8, h9, h10, h11, h12, h13, h14, h15, h16, h17, h18, h19, h20⟩ := h
-  unfold result at hr
-  split at hr <;> (try (simp at hr; done)) <;>
-    (simp only [Option.some.injEq, Prod.mk.injEq] at hr; obtain ⟨rfl, _⟩ := hr
-     constructor <;> intros <;> grind [upd, PC.inCS, PC.ptr, PC.dptr, PC.ctArg, PC.rhArg, PC.ctNew])
+set_option maxHeartbeats 2000000 in
+theorem loc_frame {s s' : St} {t : Tid} {p : PC} (h : Loc s t p) (f : Frame s s' t p) : Loc s' t p := by
+  obtain ⟨l1, l2, l3, l4, l5, l6, l7, l8, l9, l10, l11, l12, l13, l14, l15, l16, l17, l18, l19, l20, l21, l22, l23, l24, l25, l26⟩ := h
+  obtain ⟨f1, f2, f3, f4, f5, f5', f6, f7, f8, f9, f10, f11, f12, f13, f14, f15, f16, f17⟩ := f
+  constructor
+  · grind
+  · grind
+  · grind
+  · grind
+  · grind
+  · grind
+  · intro n hn; have := l7 n hn; have := l2; cases p <;> simp_all [PC.ctNew, PC.inCS]
+  · intro x ps n hp; have := l8 x ps n hp; have := l2; subst hp; simp_all [PC.inCS]
+  · intro ps hp; have := l9 ps hp; have := l2; subst hp; simp_all [PC.inCS]
+  · intro x ps g i rest hp; have := l10 x ps g i rest hp; grind
+  · intro x ps g i rest hp; have := l11 x ps g i rest hp; grind
+  · intro ps g i rest hn hp; have := l12 ps g i rest hn hp; grind
+  · intro ps g i x rest hn hp; have := l13 ps g i x rest hn hp; grind
+  · grind
+  · grind
+  · grind
+  · grind
+  · intro ps g i rest hn hp y c hc hlt hg
+    have := l18 ps g i rest hn hp y c
+    have := l1
+    grind
+  · intro ps g i x rest hn hp y c hc hlt hg
+    have := l19 ps g i x rest hn hp y c
+    have := l1
+    grind
+  · intro ps g i rest hp y c hc hlt
+    have := l20 ps g i rest hp y c
+    have := l1
+    grind
+  · intro ps g i x rest hp y c hc hlt
+    have := l21 ps g i x rest hp y c
+    have := l1
+    grind
+  · intro hp y c hc hlt
+    have := l22 hp y c
+    have := l1
+    grind [PC.emptyRes]
+  · intro x hp
+    obtain ⟨c, hc, hlt⟩ := l23 x hp
+    exact ⟨c, f16 x c hc, by rw [f8]; exact hlt⟩
+  · intro x hp
+    obtain ⟨m, hm, hlt⟩ := l24 x hp
+    exact ⟨m, f17 x m hm, by rw [f8]; exact hlt⟩
+  · intro hp
+    have := l25 hp
+    have := l2 (by cases p <;> simp_all [PC.quietCS, PC.inCS])
+    unfold Quiet at *
+    grind
+  · intro x ps n hp
+    have := l26 x ps n hp
+    have := l2 (by subst hp; rfl)
+    grind
+
+/-! ### Introduction rules of `Loc`, one per program counter -/
+
+macro "loc_intro" : tactic =>
+  `(tactic| (constructor <;> intros <;>
+      simp_all [PC.inCS, PC.ptr, PC.dptr, PC.ctArg, PC.rhArg, PC.ctNew, PC.enqItem, PC.emptyRes, PC.quietCS]))
+
+theorem loc_idle (s : St) (t : Tid) : Loc s t .idle := by loc_intro
+
+theorem loc_enqLd1 {s : St} {t : Tid} {x : Nat} {ps : List Nat} (hact : s.tCall t < s.now)
+    (hitem : s.used x = true ∧ s.owner x = t ∧ s.enqCnt x = 0) : Loc s t (.enqLd1 x ps) := by loc_intro
+
+theorem loc_enqLd2 {s : St} {t : Tid} {x : Nat} {ps : List Nat} {p : Option Nat} (hact : s.tCall t < s.now)
+    (hitem : s.used x = true ∧ s.owner x = t ∧ s.enqCnt x = 0) : Loc s t (.enqLd2 x ps p) := by loc_intro
+
+theorem loc_enqRd {s : St} {t : Tid} {x : Nat} {ps : List Nat} {g i : Nat} {rest : List Nat} (hact : s.tCall t < s.now)
+    (hitem : s.used x = true ∧ s.owner x = t ∧ s.enqCnt x = 0) (hptr : g < s.nseg) (hfloor : s.floorN x ≤ g + 1)
+    (hscan : i < s.K ∧ (∀ j, j ∈ rest → j < s.K) ∧ ∀ j, j < s.K → j = i ∨ j ∈ rest ∨ s.cell g j ≠ .null) :
+    Loc s t (.enqRd x ps g i rest) := by loc_intro
+
+theorem loc_enqCas {s : St} {t : Tid} {x : Nat} {ps : List Nat} {g i : Nat} {rest : List Nat} (hact : s.tCall t < s.now)
+    (hitem : s.used x = true ∧ s.owner x = t ∧ s.enqCnt x = 0) (hptr : g < s.nseg) (hfloor : s.floorN x ≤ g + 1)
+    (hscan : i < s.K ∧ (∀ j, j ∈ rest → j < s.K) ∧ ∀ j, j < s.K → j = i ∨ j ∈ rest ∨ s.cell g j ≠ .null) :
+    Loc s t (.enqCas x ps g i rest) := by loc_intro
+
+theorem loc_ctTry {s : St} {t : Tid} {x : Nat} {ps : List Nat} {pt : Option Nat} (hact : s.tCall t < s.now)
+    (hitem : s.used x = true ∧ s.owner x = t ∧ s.enqCnt x = 0)
+    (hpt : ∀ g, pt = some g → g < s.nseg ∧ s.floorN x ≤ g + 1 ∧ ∀ j, j < s.K → s.cell g j ≠ .null) :
+    Loc s t (.ctTry x ps pt) := by
+  constructor <;> intros <;>
+    simp_all [PC.inCS, PC.ptr, PC.dptr, PC.ctArg, PC.rhArg, PC.ctNew, PC.enqItem, PC.emptyRes, PC.quietCS]
+
+theorem loc_ctSpin {s : St} {t : Tid} {x : Nat} {ps : List Nat} {pt : Option Nat} (hact : s.tCall t < s.now)
+    (hitem : s.used x = true ∧ s.owner x = t ∧ s.enqCnt x = 0)
+    (hpt : ∀ g, pt = some g → g < s.nseg ∧ s.floorN x ≤ g + 1 ∧ ∀ j, j < s.K → s.cell g j ≠ .null) :
+    Loc s t (.ctSpin x ps pt) := by loc_intro
+
+theorem loc_ctIn {s : St} {t : Tid} {x : Nat} {ps : List Nat} {pt : Option Nat} (hact : s.tCall t < s.now)
+    (hitem : s.used x = true ∧ s.owner x = t ∧ s.enqCnt x = 0) (hhold : s.holder = some t) (hq : Quiet s)
+    (hpt : ∀ g, pt = some g → g < s.nseg ∧ s.floorN x ≤ g + 1 ∧ ∀ j, j < s.K → s.cell g j ≠ .null) :
+    Loc s t (.ctIn x ps pt) := by loc_intro
+
+theorem loc_ctTail {s : St} {t : Tid} {x : Nat} {ps : List Nat} {n : Nat} (hact : s.tCall t < s.now)
+    (hitem : s.used x = true ∧ s.owner x = t ∧ s.enqCnt x = 0) (hhold : s.holder = some t)
+    (hn : n + 1 = s.nseg) (hlo : s.lo = n) (hhd : s.head = some n) (hfloor : s.floorN x ≤ n + 1) :
+    Loc s t (.ctTail x ps n) := by
+  constructor <;> intros <;>
+    simp_all [PC.inCS, PC.ptr, PC.dptr, PC.ctArg, PC.rhArg, PC.ctNew, PC.enqItem, PC.emptyRes, PC.quietCS] <;> omega
+
+theorem loc_ctUnlock {s : St} {t : Tid} {x : Nat} {ps : List Nat} {n : Nat} (hact : s.tCall t < s.now)
+    (hitem : s.used x = true ∧ s.owner x = t ∧ s.enqCnt x = 0) (hhold : s.holder = some t)
+    (hq : Quiet s) (hn : n + 1 = s.nseg) (hfloor : s.floorN x ≤ n + 1) : Loc s t (.ctUnlock x ps n) := by
+  constructor <;> intros <;>
+    simp_all [PC.inCS, PC.ptr, PC.dptr, PC.ctArg, PC.rhArg, PC.ctNew, PC.enqItem, PC.emptyRes, PC.quietCS] <;> omega
+
+theorem loc_enqDone {s : St} {t : Tid} {x : Nat} (hact : s.tCall t < s.now) (hdone : s.enqCnt x = 1)
+    (hcas : ∃ c, s.tCas x = some c ∧ s.tCall t < c) : Loc s t (.enqDone x) := by loc_intro
+
+theorem loc_deqLd1 {s : St} {t : Tid} {ps : List Nat} (hact : s.tCall t < s.now) : Loc s t (.deqLd1 ps) := by loc_intro
+
+theorem loc_deqLd2 {s : St} {t : Tid} {ps : List Nat} {p : Option Nat} (hact : s.tCall t < s.now) :
+    Loc s t (.deqLd2 ps p) := by loc_intro
+
+theorem loc_deqRd {s : St} {t : Tid} {ps : List Nat} {g i : Nat} {rest : List Nat} {hn : Bool} (hact : s.tCall t < s.now)
+    (hptr : g < s.nseg) (hdptr : g ≤ s.lo)
+    (hscan : i < s.K ∧ (∀ j, j ∈ rest → j < s.K) ∧
+      ∀ j, j < s.K → j = i ∨ j ∈ rest ∨ (s.cell g j).isDel = true ∨ hn = true)
+    (he1 : ∀ y c, s.tCas y = some c → c < s.tCall t → s.posS y = g →
+      s.posI y = i ∨ s.posI y ∈ rest ∨ (s.cell g (s.posI y)).isDel = true)
+    (he2 : hn = true → ∀ y c, s.tCas y = some c → c < s.tCall t → s.posS y ≤ g) :
+    Loc s t (.deqRd ps g i rest hn) := by
+  constructor <;> intros <;>
+    simp_all [PC.inCS, PC.ptr, PC.dptr, PC.ctArg, PC.rhArg, PC.ctNew, PC.enqItem, PC.emptyRes, PC.quietCS]
+
+theorem loc_deqCas {s : St} {t : Tid} {ps : List Nat} {g i x : Nat} {rest : List Nat} {hn : Bool}
+    (hact : s.tCall t < s.now) (hptr : g < s.nseg) (hdptr : g ≤ s.lo)
+    (hcell : s.cell g i = .item x ∨ s.cell g i = .del x)
+    (hscan : i < s.K ∧ (∀ j, j ∈ rest → j < s.K) ∧
+      ∀ j, j < s.K → j = i ∨ j ∈ rest ∨ (s.cell g j).isDel = true ∨ hn = true)
+    (he1 : ∀ y c, s.tCas y = some c → c < s.tCall t → s.posS y = g →
+      s.posI y = i ∨ s.posI y ∈ rest ∨ (s.cell g (s.posI y)).isDel = true)
+    (he2 : hn = true → ∀ y c, s.tCas y = some c → c < s.tCall t → s.posS y ≤ g) :
+    Loc s t (.deqCas ps g i x rest hn) := by
+  constructor <;> intros <;>
+    simp_all [PC.inCS, PC.ptr, PC.dptr, PC.ctArg, PC.rhArg, PC.ctNew, PC.enqItem, PC.emptyRes, PC.quietCS]
+
+theorem loc_rhTry {s : St} {t : Tid} {ps : List Nat} {g : Nat} (hact : s.tCall t < s.now) (hptr : g < s.nseg)
+    (hdptr : g ≤ s.lo) (hdel : ∀ j, j < s.K → (s.cell g j).isDel = true) : Loc s t (.rhTry ps g) := by loc_intro
+
+theorem loc_rhSpin {s : St} {t : Tid} {ps : List Nat} {g : Nat} (hact : s.tCall t < s.now) (hptr : g < s.nseg)
+    (hdptr : g ≤ s.lo) (hdel : ∀ j, j < s.K → (s.cell g j).isDel = true) : Loc s t (.rhSpin ps g) := by loc_intro
+
+theorem loc_rhIn {s : St} {t : Tid} {ps : List Nat} {g : Nat} (hact : s.tCall t < s.now) (hptr : g < s.nseg)
+    (hdptr : g ≤ s.lo) (hhold : s.holder = some t) (hq : Quiet s) (hdel : ∀ j, j < s.K → (s.cell g j).isDel = true) :
+    Loc s t (.rhIn ps g) := by loc_intro
+
+theorem loc_rhHead {s : St} {t : Tid} {ps : List Nat} (hact : s.tCall t < s.now) (hhold : s.holder = some t)
+    (hlo : s.lo = s.nseg)
+    (he3 : ∀ y c, s.tCas y = some c → c < s.tCall t → (s.cell (s.posS y) (s.posI y)).isDel = true) :
+    Loc s t (.rhHead ps) := by loc_intro
+
+theorem loc_rhUnlock {s : St} {t : Tid} {ps : List Nat} {r : Option Nat} (hact : s.tCall t < s.now)
+    (hhold : s.holder = some t) (hq : Quiet s) (hr : ∀ g, r = some g → g < s.nseg ∧ g ≤ s.lo)
+    (he3 : r = none → ∀ y c, s.tCas y = some c → c < s.tCall t → (s.cell (s.posS y) (s.posI y)).isDel = true) :
+    Loc s t (.rhUnlock ps r) := by
+  cases r <;> loc_intro
+
+theorem loc_deqDone {s : St} {t : Tid} {r : Option Nat} (hact : s.tCall t < s.now)
+    (hr : ∀ x, r = some x → s.deqCnt x = 1 ∧ ∃ m, s.tMark x = some m ∧ s.tCall t < m)
+    (he3 : r = none → ∀ y c, s.tCas y = some c → c < s.tCall t → (s.cell (s.posS y) (s.posI y)).isDel = true) :
+    Loc s t (.deqDone r) := by
+  cases r <;> loc_intro
+
+/-- A step that changes nothing but the stepping thread's program counter and the clock. -/
+theorem frame_pcnow (s : St) (t0 : Tid) (q : PC) (t : Tid) (p : PC) :
+    Frame s { s with pc := upd s.pc t0 q, now := s.now + 1 } t p := by
+  constructor <;> intros <;> simp_all
+
+theorem glob_pcnow (s : St) (t0 : Tid) (q : PC) (h : Glob s) : Glob { s with pc := upd s.pc t0 q, now := s.now + 1 } := by
+  obtain ⟨g1, g2, g3, g4, g5, g6, g7, g8, g9, g10, g11, g12, g13, g14, g15, g16, g17, g18, g19, g20, g21, g22, g23, g24, g25, g26⟩ := h
+  constructor <;> (try assumption)
+  · intro x hx; have := g17 x hx; exact ⟨by simp only; omega, this.2⟩
+  · intro x c hx; have := g18 x c hx; exact ⟨this.1, by simp only; omega, this.2.2⟩
+  · intro x m hx; have := g20 x m hx; exact ⟨by simp only; omega, this.2⟩
+
+/-- The combinator: a step of thread `t0` to program counter `q`. -/
+theorem inv_of_step {s s' : St} {t0 : Tid} {q : PC} (h : Inv s) (hpc : s'.pc = upd s.pc t0 q) (hG : Glob s')
+    (hF : ∀ t, t ≠ t0 → Frame s s' t (s.pc t)) (hL : Loc s' t0 q) : Inv s' := by
+  refine ⟨hG, ?_⟩
+  intro t
+  by_cases ht : t = t0
+  · subst ht; rw [hpc]; simpa [upd] using hL
+  · rw [hpc]; simp only [upd, ht, if_false]
+    exact loc_frame (h.2 t) (hF t ht)
+
+theorem inv_pcnow {s : St} {t0 : Tid} {q : PC} (h : Inv s)
+    (hL : Loc { s with pc := upd s.pc t0 q, now := s.now + 1 } t0 q) :
+    Inv { s with pc := upd s.pc t0 q, now := s.now + 1 } :=
+  inv_of_step h rfl (glob_pcnow s t0 q h.1) (fun t _ => frame_pcnow s t0 q t (s.pc t)) hL
 
 end CdsVerif.Algo.Segmented
